@@ -28,6 +28,8 @@ import NeoFS.Driver.IR
 import NeoFS.Driver.Engine
 import NeoFS.Driver.ShardMode
 import NeoFS.Driver.SearchMerge
+import NeoFS.Driver.Search
+import NeoFS.Driver.Rpc
 open NeoFS NeoFS.Driver
 
 /-- State of all stateful models; pure models need none. -/
@@ -45,6 +47,7 @@ structure DState where
   eng : NeoFS.Engine.Eng := {}
   modes : NeoFS.ShardMode.St := {}
   smerge : NeoFS.Driver.SMergeState := {}
+  search : NeoFS.Driver.SearchState := {}
   irn : NeoFS.IRNetmap.St := ⟨0, false, 0⟩
 
 def stepLine (s : DState) (line : String) : DState × String :=
@@ -68,6 +71,8 @@ def stepLine (s : DState) (line : String) : DState × String :=
   | "eng" => let (g, out) := engStep s.eng o; ({ s with eng := g }, out)
   | "modes" => let (m, out) := modesStep s.modes o; ({ s with modes := m }, out)
   | "smerge" => let (e, out) := smergeStep s.smerge o; ({ s with smerge := e }, out)
+  | "search" => let (e, out) := searchStep s.search o; ({ s with search := e }, out)
+  | "rpc" => (s, rpcStep o)
   | "put" => (s, putStep o)
   | "validate" => (s, validateStep o)
   | "wcread" => let (w, out) := wcreadStep s.wcr o; ({ s with wcr := w }, out)
